@@ -326,6 +326,45 @@ def check_graph(spec: dict, orders: list[list[int]], tag: str) -> tuple[list[dic
                 viols.append(core.viol(what, mech, point=point, got=payload, spec=spec, order=order, tag=tag))
         if len(viols) > 6:
             break
+    plain = [c for c in spec["components"] if c["kind"] == "variable" and "value" in c]
+    if expect_vals is not None and plain and not viols:
+        # a valid graph, evaluated, then one declared initial value changes: whatever names that variable (assignment-defined
+        # parameters and initial values included, through any chain) sees the new finished value
+        import copy
+
+        tgt = plain[_STATE["calls"] % len(plain)]["name"]
+        sp2 = copy.deepcopy(spec)
+        for c in sp2["components"]:
+            if c["kind"] == "variable" and c["name"] == tgt:
+                c["value"] = 3.25
+        try:
+            ref2 = rm.Ref(sp2)
+            exp_a, exp_i = ref2.at(None, 0.0, readouts=False), ref2.initial_conditions()
+        except Exception:  # noqa: BLE001
+            ref2 = None
+        if ref2 is not None:
+            model = rm.build(spec)
+            model.get_args()  # (resolved once; _observe drops the resolution after every point, a session does not)
+            if _STATE["calls"] % 2:
+                model.update_variable(tgt, 3.25)
+            else:
+                model.update_variables({tgt: 3.25})
+            HISTORY["initial value changed after an evaluation"] = HISTORY.get("initial value changed after an evaluation", 0) + 1
+            obs = {}
+            for point, call in (("get_args", lambda: model.get_args().to_dict()), ("get_initial_conditions", lambda: dict(model.get_initial_conditions()))):
+                try:
+                    obs[point] = ("values", call())
+                except Exception as e:  # noqa: BLE001
+                    obs[point] = ("other", f"{type(e).__name__}: {e}"[:300])
+            for point, exp in (("get_args", exp_a), ("get_initial_conditions", exp_i)):
+                kind, payload = obs[point]
+                if kind != "values":
+                    viols.append(core.viol(f"valid graph rejected after an initial value was changed ({kind})", None, point=point, payload=payload, spec=spec, changed=tgt, tag=tag))
+                    break
+                bad = {k: (v, exp.get(k)) for k, v in payload.items() if k in exp and not core.close(v, exp[k])}
+                if bad:
+                    viols.append(core.viol("values do not follow an initial value that was changed after an evaluation", None, point=point, bad=bad, spec=spec, changed=tgt, tag=tag))
+                    break
     if ref_missing and not ref_cycle and not viols:
         # the same graph reached by a history: every name is declared (the missing ones as parameters), the model is
         # evaluated, and then those parameters are removed again - in bulk (a list, a generator) or one by one
@@ -475,7 +514,7 @@ def run_case(case: dict) -> dict:
     counters["sort_loop_iterations_monitored"] = int(_STATE["armed"])
     counters["max_iter_ratio_x1000"] = 0
     for how_, n_ in HISTORY.items():
-        counters[f"names removed after an evaluation ({how_})"] = n_
+        counters[how_ if how_.startswith("initial value") else f"names removed after an evaluation ({how_})"] = n_
     HISTORY.clear()
     res = core.result(sig=sig, nontrivial=True, sigs=sigs, violations=out, counters=counters, sample=sample,
                       info={"max_ratio": _STATE["max_ratio"], "n_graph_orders": counters["graph_x_order"]})
